@@ -13,8 +13,8 @@ func sdkIntOf(s string) sdk.Int {
 		return sdk.Int{}
 	}
 	b := bigOf(s)
-	if b.BitLen() > 255 { // sdk.Int cannot carry more (and protobuf decoding rejects it)
-		return sdk.NewIntFromBigInt(new(big.Int).Sub(new(big.Int).Lsh(big.NewInt(1), 255), big.NewInt(1)))
+	if b.BitLen() > 256 { // sdk.Int cannot carry more (and protobuf decoding rejects it)
+		return sdk.NewIntFromBigInt(new(big.Int).Sub(new(big.Int).Lsh(big.NewInt(1), 256), big.NewInt(1)))
 	}
 	return sdk.NewIntFromBigInt(b)
 }
@@ -24,7 +24,7 @@ func sdkIntOf(s string) sdk.Int {
 // external models on purpose).
 func (w *World) doAdvEvent(in Intent) {
 	st := w.ReadState()
-	nonce := st.LastObservedEventNonce(in.Chain) + 1
+	nonce := st.LastObservedEventNonce(in.Chain) + 1 + uint64(in.Skip)
 	coin := in.Denom // external id verbatim
 	if t := w.Cfg.Token(in.Chain, in.Denom); t != nil {
 		coin = t.ExtID
